@@ -40,6 +40,15 @@ Theorem C12_no_early_passivation_handled_refuted :
   snd (last (run m0 (burst_ops true)) (m0, RNone)) = RDecide None.
 Proof. split; [exact (burst_valid false)|exact burst_witness]. Qed.
 
+(* Resume recomputes the deadline of a paused time-based entry from the latest activity, so a
+   message handled while passivation was paused counts. *)
+Theorem C12_resume_refreshes : forall c m id e now,
+  reach c m -> aget id (m_entries m) = Some e -> e_paused e = true -> is_time (e_strat e) = true ->
+  exists e', aget id (m_entries (fst (step m (OResume id now)))) = Some e' /\
+             e_paused e' = false /\ e_inheap e' = true /\
+             e_deadline e' = (if p_latest (get_part m id) =? 0 then now else p_latest (get_part m id)) + e_timeout e.
+Proof. exact resume_refreshes. Qed.
+
 (* Message-count entries: a decision is only taken for the current, un-paused entry; when that
    entry is pending, the processed counter has reached baseline + maxMessages. *)
 Theorem C12_count_threshold_partial : forall c m id obj,
@@ -87,6 +96,7 @@ Proof. exact reach_inv. Qed.
 Print Assumptions C12_no_early_passivation.
 Print Assumptions C12_no_early_passivation_handled.
 Print Assumptions C12_no_early_passivation_handled_refuted.
+Print Assumptions C12_resume_refreshes.
 Print Assumptions C12_count_threshold_partial.
 Print Assumptions C12_count_threshold_refuted.
 Print Assumptions C12_long_lived_never_scheduled.
